@@ -60,18 +60,38 @@ class RopeV:
 def rope_eq(I, a, b):
     if len(a.items) != len(b.items):
         return False
-    acc = True
+    # first pass: concrete mismatches decide without building any term
+    pending = []
     for x, y in zip(a.items, b.items):
-        if isinstance(x, tuple) or isinstance(y, tuple):
-            acc = b_and(acc, x == y)
-        elif isinstance(x, Seg) or isinstance(y, Seg):
-            if not (isinstance(x, Seg) and isinstance(y, Seg) and x.kind == y.kind and x.arg == y.arg):
+        if x is y:
+            continue
+        xi, yi = isinstance(x, int), isinstance(y, int)
+        if xi and yi:
+            if x != y:
                 return False
-            acc = b_and(acc, I.sym_eq(x.term, y.term) if (is_sym(x.term) or is_sym(y.term)) else x.term == y.term)
-        elif is_sym(x) or is_sym(y):
-            acc = b_and(acc, I.sym_eq(x, y))
-        else:
-            acc = b_and(acc, x == y)
+            continue
+        if isinstance(x, tuple) or isinstance(y, tuple):
+            if x != y:
+                return False
+            continue
+        xs, ys = isinstance(x, Seg), isinstance(y, Seg)
+        if xs or ys:
+            if not (xs and ys and x.kind == y.kind and x.arg == y.arg):
+                return False
+            if x.term is y.term or (is_sym(x.term) and is_sym(y.term) and x.term.eq(y.term)):
+                continue
+            if not is_sym(x.term) and not is_sym(y.term):
+                if x.term != y.term:
+                    return False
+                continue
+            pending.append((x.term, y.term))
+            continue
+        if is_sym(x) and is_sym(y) and x.eq(y):
+            continue
+        pending.append((x, y))
+    acc = True
+    for x, y in pending:
+        acc = b_and(acc, I.sym_eq(x, y))
         if acc is False:
             return False
     return acc
@@ -82,8 +102,11 @@ def obs_eq(I, a, b):
         return False
     st = St()
     if a.variant == "Program":
-        return b_and(struct_eq(I, a.fields[0], b.fields[0], st), struct_eq(I, a.fields[1], b.fields[1], st),
-                     rope_eq(I, a.fields[2], b.fields[2]), io_eq(I, a.fields[3], b.fields[3], st))
+        r = rope_eq(I, a.fields[2], b.fields[2])          # cheapest and most discriminating first
+        if r is False:
+            return False
+        return b_and(r, struct_eq(I, a.fields[0], b.fields[0], st), struct_eq(I, a.fields[1], b.fields[1], st),
+                     io_eq(I, a.fields[3], b.fields[3], st))
     return b_and(*[struct_eq(I, x, y, st) for x, y in zip(a.fields, b.fields)])
 
 
